@@ -340,6 +340,20 @@ def restrict(case, keep):
     return c
 
 
+def driver_run(chk: Check, lines):
+    """the driver executable is re-linked whenever any model file changes; while that happens (a
+    concurrent `lake build`) it is briefly absent — wait for it instead of failing the run"""
+    import time
+    for _ in range(24):
+        if chk.driver.exe.exists():
+            try:
+                return chk.driver.run(lines)
+            except (InfraError, OSError):
+                pass
+        time.sleep(5)
+    return chk.driver.run(lines)
+
+
 def one_case(chk: Check, case, override=None, with_alone=True):
     """returns dict(diff=index|None, problems=[...], impl=[...], model=[...], raised=str|None)"""
     exact = case.get("exact", True)
@@ -349,7 +363,7 @@ def one_case(chk: Check, case, override=None, with_alone=True):
         return {"diff": None, "problems": [f"implementation raised {type(e).__name__}: {e}"],
                 "impl": [], "model": [], "raised": type(e).__name__}
     mlines = model_lines(case)
-    model = chk.driver.run(["reset"] + mlines)[1:]
+    model = driver_run(chk, ["reset"] + mlines)[1:]
     chk.corr["model_lines"] += len(mlines)
     if len(impl) != len(model):
         raise InfraError(f"C18: {len(impl)} implementation observables for {len(model)} model lines")
